@@ -9,8 +9,10 @@
 
    Depth-only machine (deep = 1): the stack discipline of pickletools.dis depends only
    on the stack length and the positions of MARK cells, so the reference state is
-   [n, marks] (marks = positions of MARK cells, bottom first); kinds and the memo are
-   not tracked, hence only C01 and the lexical properties are judged on such records. *)
+   [n, marks] (marks = positions of MARK cells, bottom first) plus the memo's KEY SET in
+   constant space: keys 0..mn-1 are defined (the dense prefix every PUT-family emitter is
+   supposed to extend) and `extra` holds defined keys beyond it.  Kinds are not tracked,
+   hence C01, C02 and the lexical properties are judged on such records, C03 is not. *)
 EXTENDS Naturals, Integers, Sequences, FiniteSets, TLC, Json, IOUtils, Lexer, RefPVM
 
 Rec == ndJsonDeserialize(IOEnv.TRACE)
@@ -27,16 +29,29 @@ vars == <<i, p, lexd, st, dm, acc, msgs>>
 
 StInit == [stk |-> <<>>, memo |-> <<>>, cls |-> "", why |-> "", kept |-> 0, key |-> -1]
 LexInit == [op |-> -1, known |-> FALSE, nxt |-> 0, ok |-> FALSE, why |-> "", arg |-> -1]
-DmInit == [n |-> 0, marks |-> <<>>, cls |-> ""]
+DmInit == [n |-> 0, marks |-> <<>>, cls |-> "", mn |-> 0, extra |-> {}]
 AccInit == [n |-> 0, frames |-> 0, stops |-> 0, broken |-> FALSE, stuck |-> FALSE]
 
 Init == i = 1 /\ p = 1 /\ lexd = LexInit /\ st = StInit /\ dm = DmInit /\ acc = AccInit /\ msgs = <<>>
 
 V(k, prop, why) == <<"V", Rec[k].id, acc.n + 1, prop, why>>
 
-(* pickletools.dis on [n, marks] *)
-DepthStep(d, op) ==
+RECURSIVE Absorb(_, _)
+Absorb(mn, extra) == IF mn \in extra THEN Absorb(mn + 1, extra \ {mn}) ELSE [mn |-> mn, extra |-> extra]
+
+(* pickletools.dis on [n, marks] and the memo key set *)
+DepthStep(d, op, arg) ==
     LET nm == Len(d.marks)
+        has(k) == (k >= 0 /\ k < d.mn) \/ k \in d.extra
+        idx == IF op = B_MEMOIZE THEN d.mn + Cardinality(d.extra) ELSE arg
+        memoErr == IF op \in PutOps
+                   THEN IF has(idx) THEN "memoPut"
+                        ELSE IF d.n = 0 THEN "memoEmpty"
+                        ELSE IF nm > 0 /\ d.marks[nm] = d.n THEN "memoMark" ELSE ""
+                   ELSE IF op \in GetOps /\ ~has(arg) THEN "memoGet" ELSE ""
+        memo2 == IF op \in PutOps /\ ~has(idx)
+                 THEN (IF idx = d.mn THEN Absorb(d.mn + 1, d.extra) ELSE [mn |-> d.mn, extra |-> d.extra \cup {idx}])
+                 ELSE [mn |-> d.mn, extra |-> d.extra]
         topIsMark == nm > 0 /\ d.marks[nm] = d.n
         usesMark == OpUsesMark(op) \/ (op = B_POP /\ topIsMark)
         base == IF usesMark /\ nm > 0 THEN d.marks[nm] - 1 ELSE d.n
@@ -48,8 +63,8 @@ DepthStep(d, op) ==
         marks2 == SelectSeq(marks1, LAMBDA m : m <= rest)
         n2 == rest + OpPushes(op)
         marks3 == IF op = B_MARK THEN Append(marks2, n2) ELSE marks2
-    IN [n |-> n2, marks |-> marks3,
-        cls |-> IF err # "" THEN err ELSE IF op = B_STOP /\ n2 # 0 THEN "stop" ELSE ""]
+    IN [n |-> n2, marks |-> marks3, mn |-> memo2.mn, extra |-> memo2.extra,
+        cls |-> IF err # "" THEN err ELSE IF op = B_STOP /\ n2 # 0 THEN "stop" ELSE memoErr]
 
 Safe(c) == c.unsafe = 0 /\ c.mutUnsafe = 0
 
@@ -64,7 +79,7 @@ OpStep ==
        IN
        /\ lexd' = LexAt(b, p)
        /\ st' = IF lexd'.known /\ lexd'.ok /\ ~deep /\ ~acc.broken THEN RefStep(st, lexd'.op, lexd'.arg) ELSE st
-       /\ dm' = IF lexd'.known /\ lexd'.ok /\ deep /\ ~acc.broken THEN DepthStep(dm, lexd'.op) ELSE dm
+       /\ dm' = IF lexd'.known /\ lexd'.ok /\ deep /\ ~acc.broken THEN DepthStep(dm, lexd'.op, lexd'.arg) ELSE dm
        /\ p' = lexd'.nxt
        /\ LET cls == IF deep THEN dm'.cls ELSE st'.cls
               why == IF deep THEN dm'.cls ELSE st'.why
@@ -78,7 +93,7 @@ OpStep ==
           /\ msgs' =
                (IF ~lx.known THEN <<V(i, "C04", "unknown opcode byte")>> ELSE <<>>)
             \o (IF lx.known /\ ~lx.ok THEN <<V(i, "C04", lx.why)>> ELSE <<>>)
-            \o (IF lx.known /\ lx.ok /\ safe /\ ~acc.broken /\ cls # "" /\ (~deep \/ cls \in {"stack", "mark", "stop"})
+            \o (IF lx.known /\ lx.ok /\ safe /\ ~acc.broken /\ cls # "" /\ (~deep \/ cls \in {"stack", "mark", "stop", "memoGet", "memoPut", "memoMark", "memoEmpty"})
                 THEN <<V(i, PropertyOf(cls), why)>> ELSE <<>>)
             \o (IF lx.known /\ lx.op \in ExtOps /\ c.ext = 0 THEN <<V(i, "C10", "EXT opcode although not enabled")>> ELSE <<>>)
             \o (IF lx.known /\ lx.op \in BufOps /\ c.buf = 0 THEN <<V(i, "C10", "buffer opcode although not enabled")>> ELSE <<>>)
